@@ -465,6 +465,22 @@ func runC16(c *Ctx) {
 	checkBirthdaySearchGivesUpOnlyAtABound(c, "C16-R6")
 	checkFirstSyncRetryConsultsPersistedBirthdayBlock(c, "C16-R6")
 	checkNextIndexGuardsStayOnTheirBranch(c, "C16-R4")
+	if sb := c.P.Func("wallet", "walletBirthdayStore", "SetBirthdayBlock"); sb != nil {
+		nBody := 0
+		for _, f := range c.P.regionOf(sb) {
+			if len(callsNamed(f, "SetBirthdayBlock")) == 0 {
+				continue
+			}
+			nBody++
+			checkMustPassOnSuccess(c, "C16-R6", "birthday-block-rebase-moves-synced-to", f, "SetSyncedTo",
+				"walletBirthdayStore.SetBirthdayBlock can report success without moving the synced-to block to the corrected birthday block: the recovery starts above it and the blocks in between are never scanned")
+		}
+		c.Floor("C16-R6", "database transactions of walletBirthdayStore.SetBirthdayBlock", nBody, 1)
+	} else {
+		c.Unresolved("C16-R6", "wallet.walletBirthdayStore.SetBirthdayBlock")
+	}
+	checkNoEarlySuccessExit(c, "C16-R2", "relevant-tx-credits-every-output", c.P.Func("wallet", "Wallet", "addRelevantTx"), "TxOut",
+		"addRelevantTx can report success before every output of the transaction was looked at: an output after one that is skipped gets no credit")
 	checkResurrectReportsEveryRecordedKey(c, "C16-R6")
 	checkFilterLengthGuardAdmitsOneElement(c, "C16-R2")
 	// "interrupted-and-resumed recoveries": a batch that fails is rolled back and repeated by the next attempt in the same
